@@ -417,8 +417,20 @@ def isHunkHeader : State → Bool
   | .hunkHeader .. => true
   | _ => false
 
+/-- `ParsedHunkHeader::new_side_is_empty`: the hunk has no lines on the side of the new file -/
+def newSideEmpty (hh : HunkHeader) : Bool :=
+  match hh.coords.getLast? with
+  | some (_, 0) => true
+  | _ => false
+
+/-- a pending hunk header whose hunk has lines on the new side (a removed submodule has none: its
+`-Subproject commit` line has no `+` line to be paired with) -/
+def pairableHunkHeader : State → Bool
+  | .hunkHeader _ hh _ _ _ => !newSideEmpty hh
+  | _ => false
+
 def submoduleShortTest (m : M) (l : L) : Bool :=
-  (isHunkHeader m.st && startsWith l.text Markers.submoduleShortMinus)
+  (pairableHunkHeader m.st && startsWith l.text Markers.submoduleShortMinus)
     || (match m.st with
         | .submoduleShort _ => startsWith l.text Markers.submoduleShortPlus
         | _ => false)
